@@ -4,8 +4,10 @@
 # env: W = worker processes per check (default 5), TIER (default quick)
 patch=$1; shift
 wt=/tmp/seedwork/benwt_$$
-git -C /repo worktree add --detach -f $wt HEAD >/dev/null 2>&1 || exit 2
+git -C /repo worktree add --detach -f $wt $(cat /tmp/seedwork/BASE 2>/dev/null || echo HEAD) >/dev/null 2>&1 || exit 2
 git -C $wt apply "$patch" || { echo "PATCH-DOES-NOT-APPLY $patch"; git -C /repo worktree remove --force $wt; exit 2; }
+# fixes committed to /repo after the agents' base commit are carried over (skipped with a note if they do not apply)
+if [ -f /tmp/seedwork/BASE ]; then git -C /repo diff $(cat /tmp/seedwork/BASE) HEAD -- src | git -C $wt apply 2>/dev/null || echo "NOTE: later fixes do not apply on top of this patch; running on the base commit"; fi
 cd /verif; mkdir -p out/logs
 tag=$(echo "$patch" | tr '/' '_' | sed 's/_tmp_seedwork_//; s/_patch.diff//')
 for id in "$@"; do
